@@ -154,7 +154,7 @@ type bound struct {
 // loop make the number of paths exponential in that depth (2^40 calls): such pairs are not run at all.
 func theBound() bound {
 	if ev.Thorough() {
-		return bound{N0: 5, N1: 5, N1Full: 4, NL: 3, NLFull: 2, N2: 4, N2L: 2}
+		return bound{N0: 5, N1: 5, N1Full: 3, NL: 3, NLFull: 2, N2: 4, N2L: 2}
 	}
 	return bound{N0: 4, N1: 4, N1Full: 2, NL: 2, NLFull: -1, N2: 2, N2L: 1}
 }
